@@ -60,8 +60,8 @@ int local(Trial &T, TBox &box, TBox &domain, double eps_cl, double *mgr,
 #endif
 
   if (box.OutsideBox(x, domain) != 0) {
-    cout << "Starting point is not inside the boundary. Exiting...\n" ;
-    exit(1) ;
+    if (stogo_verbose)
+      cout << "Starting point is not inside the boundary.\n" ;
     return LS_Out ;
   }
 
@@ -376,10 +376,8 @@ int local(Trial &T, TBox &box, TBox &domain, double eps_cl, double *mgr,
     info=LS_Out; f=DBL_MAX;
   }
 
-  if (info == LS_Unstable) {
-    cout << "Local search became unstable. No big deal but exiting anyway\n" ;
-    exit(1);
-  }
+  if (info == LS_Unstable && stogo_verbose)
+    cout << "Local search became unstable.\n" ;
 
   *mgr=maxgrad ;
 
